@@ -180,7 +180,13 @@ def oracleEnd (view : List Ctx → List Ctx) (s0 : Retry.State) (initial : Nat) 
       -- a failed run
       let lost := (s0.items.filter (fun b => !b.allowFailure)).flatMap fun b =>
         b.ctxs.filter (fun c => !covered c (pendingNF after))
+      -- binding names are not unique: contexts of different tasks can be equal. An ungrouped context
+      -- is never compacted away, so it must be there as many times as before.
+      let nfBefore := pendingNF s0.items
+      let nfAfter := pendingNF after
+      let fewer := (nfBefore.filter fun c => c.group == 0 && nfBefore.count c > nfAfter.count c).eraseDups
       if !lost.isEmpty then s!"false no_discard lost={showCtxs lost}"
+      else if !fewer.isEmpty then s!"false no_discard fewer-copies-of={showCtxs fewer}"
       else if t.allowFailure then
         if after.any (·.id == t.id) then "false allowFailure-task-not-dropped"
         else if sleep != 0 then "false allowFailure-but-backoff"
